@@ -170,6 +170,7 @@ COMBINATORS = {
     "std::result::Result::unwrap_or_else": (_R, "Ok", "Err", "unwrap_or_else"),
     "std::result::Result::or_else": (_R, "Ok", "Err", "or_else"),
     "std::option::Option::or_else": (_O, "Some", "None", "or_else"),
+    "std::option::Option::filter": (_O, "Some", "None", "filter"),
 }
 
 
@@ -296,6 +297,23 @@ class Walker:
                         self._finish("backedge", None, st, detail=val[1])
                     if isinstance(val, tuple) and val and val[0] == "__prune__":
                         self._finish("unreachable", None, st, detail="synthetic alternative contradicts the closure's result")
+                    if isinstance(val, tuple) and val and val[0] == "__forkbool__":
+                        # the closure returned a boolean that selects between two results (Option::filter, ...)
+                        _, cond, yes, no = val
+                        d = st.facts.decide(cond)
+                        if d is True:
+                            val = yes
+                        elif d is False:
+                            val = no
+                        else:
+                            s2 = st.copy()
+                            if s2.facts.assume(cond, False) and fr.ret_block is not None:
+                                self._write(s2, fr.ret_place, no)
+                                s2.bb = fr.ret_block
+                                work.append(s2)
+                            if not st.facts.assume(cond, True):
+                                self._finish("unreachable", None, st, detail="contradictory filter result")
+                            val = yes
                     if isinstance(val, tuple) and val and val[0] == "__then__":
                         # continuation: the model schedules the next closure application into the same destination
                         val[1](st, caller, fr.ret_place, fr.ret_block, fr.site)
@@ -1027,6 +1045,41 @@ class Walker:
             old = self._read(st, args[0][1])
             self._write(st, args[0][1], args[1])
             return ("val", old)
+        if name in ("from", "into") and len(args) == 1 and "bool" in [g.strip() for g in (callee.get("gargs") or [])] \
+                and any(g.strip() in ("u8", "u16", "u32", "u64", "u128", "usize", "i32", "i64") for g in (callee.get("gargs") or [])):
+            # u64::from(flag): 1 or 0
+            d = st.facts.decide(args[0])
+            if d is True:
+                return ("val", Int(1))
+            if d is False:
+                return ("val", Int(0))
+            return ("fork", [
+                (lambda s, c=args[0]: s.facts.assume(c, True), Int(1)),
+                (lambda s, c=args[0]: s.facts.assume(c, False), Int(0)),
+            ])
+        if name == "checked_sub" and len(args) == 2 and "num" in cn and not _maybe_signed(args[0]) and not _maybe_signed(args[1]):
+            # a.checked_sub(b): Some(a - b) when b <= a, None when a < b
+            a, b = args
+            OPT = "std::option::Option"
+            if is_int(a) and is_int(b):
+                return ("val", agg(OPT, "Some", [("0", Int(a[1] - b[1]))]) if a[1] >= b[1] else agg(OPT, "None", []))
+            return ("fork", [
+                (lambda s, a=a, b=b: s.facts.assume(("bin", "Lt", a, b), False), agg(OPT, "Some", [("0", self.binop("Sub", a, b))])),
+                (lambda s, a=a, b=b: s.facts.assume(("bin", "Lt", a, b), True), agg(OPT, "None", [])),
+            ])
+        if name == "abs_diff" and len(args) == 2 and "num" in cn and not _maybe_signed(args[0]) and not _maybe_signed(args[1]):
+            a, b = args
+            if is_int(a) and is_int(b):
+                return ("val", Int(abs(a[1] - b[1])))
+            d = st.facts.decide(("bin", "Lt", a, b))
+            if d is True:
+                return ("val", self.binop("Sub", b, a))
+            if d is False:
+                return ("val", self.binop("Sub", a, b))
+            return ("fork", [
+                (lambda s, a=a, b=b: s.facts.assume(("bin", "Lt", a, b), False), self.binop("Sub", a, b)),
+                (lambda s, a=a, b=b: s.facts.assume(("bin", "Lt", a, b), True), self.binop("Sub", b, a)),
+            ])
         if name == "saturating_sub" and len(args) == 2:
             if is_int(args[0]) and is_int(args[1]):
                 return ("val", Int(max(0, args[0][1] - args[1][1])))
@@ -1285,6 +1338,12 @@ class Walker:
         elif kind == "unwrap_or_else":
             alts.append((pos, ("val", payload(pos))))
             alts.append((neg, self._apply_fn(st, fr, f, [] if adt == OPT else [payload(neg)], None)))
+        elif kind == "filter":       # Some(x) -> if f(&x) { Some(x) } else { None }
+            px = payload(pos)
+            keep = agg(adt, pos, [("0", px)])
+            drop_ = agg(adt, neg, [])
+            alts.append((pos, self._apply_fn(st, fr, f, [("refval", px)], lambda b, keep=keep, drop_=drop_: ("__forkbool__", b, keep, drop_))))
+            alts.append((neg, ("val", drop_)))
         elif kind == "map_or":       # (self, default, f)
             g = args[2] if len(args) > 2 else None
             alts.append((pos, self._apply_fn(st, fr, g, [payload(pos)], None)))
